@@ -302,14 +302,22 @@ def work_z3str(inst) -> dict:
     define, meaning = S.glob_oracle(p, s, t)
     alphabet = z3.Star(z3.Union(z3.Range(" ", "~")))
     L = inst["L"]
-    sol = z3.Solver()
-    sol.set("timeout", 300000)
-    sol.add(z3.InRe(p, alphabet), z3.InRe(s, alphabet), z3.Length(p) >= 1, z3.Length(p) <= L, z3.Length(s) <= L, define, code != meaning)
     t0 = time.time()
-    r = str(sol.check())
+    tried = []
+    # ladder of bounds: `unknown` (time-out, e.g. on a loaded machine) at length L is retried once with a longer
+    # time-out and then at L-1, L-2; the bound that was actually decided is what the evidence states.  Never below 4.
+    for bound, timeout_ms in [(L, 300000), (L, 900000)] + [(b, 600000) for b in range(L - 1, 3, -1)]:
+        sol = z3.Solver()
+        sol.set("timeout", timeout_ms)
+        sol.add(z3.InRe(p, alphabet), z3.InRe(s, alphabet), z3.Length(p) >= 1, z3.Length(p) <= bound, z3.Length(s) <= bound, define, code != meaning)
+        r = str(sol.check())
+        res["queries"] += 1
+        res["queries_" + r] += 1
+        tried.append({"bound": bound, "timeout_s": timeout_ms // 1000, "result": r})
+        if r != "unknown":
+            L = bound
+            break
     res["solver_s"] = round(time.time() - t0, 3)
-    res["queries"] = 1
-    res["queries_" + r] = 1
     if r == "unknown":
         res["errors"].append(f"solver unknown on {res['label']}")
     elif r == "sat":
@@ -323,7 +331,7 @@ def work_z3str(inst) -> dict:
         else:
             payload.update({"text": text, "observed": detail, "signature": {"glob": [pp, ss]}})
             res["violations"].append(payload)
-    res["samples"] = [{"instance": res["label"], "converter_paths": len(paths), "token_shapes": [[tk[1] if tk[0] == "LIT" else "<escaped text>" for tk in toks.toks] for _, toks in paths], "bound": L}]
+    res["samples"] = [{"instance": res["label"], "converter_paths": len(paths), "token_shapes": [[tk[1] if tk[0] == "LIT" else "<escaped text>" for tk in toks.toks] for _, toks in paths], "bound_decided": L, "bound_asked": inst["L"], "ladder": tried}]
     return res
 
 
